@@ -651,12 +651,123 @@ fn binary_case(cx: &mut CaseCtx, input: Input) -> CaseResult {
     Ok(())
 }
 
+/// Number of `allow` attributes anywhere in a program (declarations and types).
+fn count_allow(p: &crate::model::Program) -> usize {
+    use crate::model::*;
+    fn ty(t: &TypeM) -> usize {
+        t.attrs.iter().filter(|a| a.directive == "allow").count()
+            + match &t.kind {
+                TypeK::Seq(e) => ty(e),
+                TypeK::Dict(k, v) => ty(k) + ty(v),
+                TypeK::Result(a, b) => ty(a) + ty(b),
+                _ => 0,
+            }
+    }
+    let pre = |p: &Prelude| p.attrs.iter().filter(|a| a.directive == "allow").count();
+    let mut n = 0;
+    for f in &p.files {
+        n += f.file_attrs.iter().filter(|a| a.directive == "allow").count();
+        if let Some(m) = &f.module {
+            n += m.attrs.iter().filter(|a| a.directive == "allow").count();
+        }
+        for d in &f.defs {
+            n += pre(d.pre());
+            match d {
+                DefM::Struct(s) => s.fields.iter().for_each(|x| n += pre(&x.pre) + ty(&x.ty)),
+                DefM::Interface(i) => {
+                    i.bases.iter().for_each(|b| n += ty(b));
+                    for o in &i.ops {
+                        n += pre(&o.pre);
+                        o.params.iter().chain(o.ret.members()).for_each(|x| n += pre(&x.pre) + ty(&x.ty));
+                    }
+                }
+                DefM::Enum(e) => {
+                    if let Some(u) = &e.underlying {
+                        n += ty(u);
+                    }
+                    for en in &e.enumerators {
+                        n += pre(&en.pre);
+                        en.fields.iter().flatten().for_each(|x| n += pre(&x.pre) + ty(&x.ty));
+                    }
+                }
+                DefM::Alias(a) => n += ty(&a.ty),
+                DefM::Custom(_) => {}
+            }
+        }
+    }
+    n
+}
+
+/// Through the binary: one `allow` attribute written on the file, an interface, an operation, a
+/// parameter, a return member, a struct or a field.  The generator request of the run with the
+/// attribute says what the run without it says, plus that one attribute, once.
+fn request_delta_case(cx: &mut CaseCtx, input: Input) -> CaseResult {
+    const PLACES: [&str; 7] = ["file", "interface", "operation", "parameter", "return-member", "struct", "field"];
+    let place = PLACES[input.index() as usize % PLACES.len()];
+    let arg = ["Deprecated", "All", "BrokenDocLink, Deprecated"][(input.index() as usize / PLACES.len()) % 3];
+    let at = |p: &str| if p == place { format!("[allow({arg})] ") } else { String::new() };
+    let text = |with: bool| -> String {
+        let a = |p: &str| if with { at(p) } else { String::new() };
+        format!(
+            "{}module M\n[deprecated] struct D {{}}\n{}struct U {{\n    {}d: D\n    e: bool\n}}\n{}interface I {{\n    {}op({}a: D, b: bool) -> ({}x: D, y: int32)\n    other(c: string)\n}}\n",
+            if with && place == "file" { format!("[[allow({arg})]]\n") } else { String::new() },
+            a("struct"),
+            a("field"),
+            a("interface"),
+            a("operation"),
+            a("parameter"),
+            a("return-member")
+        )
+    };
+    cx.nontrivial = true;
+    cx.label(format!("request-delta:{place}"));
+    let (with, without) = (text(true), text(false));
+    cx.sample_with(|| json!({"file": with, "baseline": without}));
+    let run = |salt: u64, t: &str| -> Result<(proc::RunResult, Option<Vec<u8>>), Fail> {
+        let d = CaseDir::new(&cx.workdir, cx.shard, cx.case_no + salt * 1_000_000);
+        d.write("a.slice", t.as_bytes());
+        let g = d.install_generator("gen", "");
+        let r = proc::run_slicec(&d.path, &[os("a.slice"), os("--generator=./gen")], &[], Duration::from_secs(20));
+        if let Some(c) = r.crashed() {
+            return Err(Fail::new(format!("slicec-crash/{c}"), r.stderr_text()));
+        }
+        let stdin = d.generator_stdin(&g);
+        Ok((r, stdin))
+    };
+    let (ra, qa) = run(1, &with)?;
+    let (rb, qb) = run(2, &without)?;
+    check!(ra.code == Some(0) && rb.code == Some(0), "request-delta/exit-status", "exit {:?} with, {:?} without\n{}", ra.code, rb.code, ra.stderr_text());
+    let (Some(qa), Some(qb)) = (qa, qb) else {
+        fail!("request-delta/generator-not-run", "{}", ra.stderr_text());
+    };
+    let dec = |q: &[u8]| -> Result<crate::model::Program, Fail> {
+        let (d, _) = crate::request::decode_and_interpret(q).map_err(|e| Fail::new("request-delta/undecodable-request", format!("{e:?}")))?;
+        Ok(crate::model::Program { files: d.sources.into_iter().chain(d.references).map(|f| f.file).collect() })
+    };
+    let (pa, pb) = (dec(&qa)?, dec(&qb)?);
+    let n = count_allow(&pa);
+    check!(
+        n == 1 && count_allow(&pb) == 0,
+        format!("request-delta/allow-attributes/{place}"),
+        "one allow attribute was written on the {place}; the request carries {n} of them\n--- source ---\n{with}"
+    );
+    let mut stripped = pa.clone();
+    strip_allow(&mut stripped);
+    // (strip_allow leaves attributes on types alone; count_allow == 1 already excludes copies there)
+    check!(
+        stripped == pb,
+        format!("request-delta/content/{place}"),
+        "apart from the attribute itself the request differs from the one of the run without it\n--- source ---\n{with}"
+    );
+    Ok(())
+}
+
 impl Check for C13 {
     fn id(&self) -> &'static str {
         "C13"
     }
     fn rule(&self) -> String {
-        format!("families: matrix = all {MATRIX_TOTAL} cells lint kind (Deprecated, BrokenDocLink, IncorrectDocComment, MalformedDocComment) x site (10 uses of a deprecated type: field, nested type, enumerator field, parameter, single return, return member, alias target, interface base, enum underlying, dictionary value; 9 commented entities) x placement (none, command line, command line in another case, file attribute, outer enclosing definition, inner enclosing definition, the element itself, unrelated sibling, another file's attribute) x argument (that lint, All, another lint, that + another, another + All), in-process; errors = 10 error templates (8 kinds with allow(All) everywhere, a repeated attribute with an allow written between its two uses) x -A lists; binary = command-line spellings, DuplicateFile, exit status, request identity; random = proptest choice sequences -> programs with deprecated definitions and their uses, doc comments and up to 3 planted comment defects, plus 1..4 suppressions (command line, file attribute, any definition or member; one or two names each) in free layouts. Oracle: the statement's predicate gives the expected level (in the random family the element a lint concerns is found independently of the implementation's scope strings: the innermost element whose text, doc comment and attributes included, contains the lint's location as recorded by the printer); with/without pairs differ in nothing but that level and the added attribute. Non-trivial = a suppression is present (matrix) / at least one located lint judged (random)")
+        format!("families: matrix = all {MATRIX_TOTAL} cells lint kind (Deprecated, BrokenDocLink, IncorrectDocComment, MalformedDocComment) x site (10 uses of a deprecated type: field, nested type, enumerator field, parameter, single return, return member, alias target, interface base, enum underlying, dictionary value; 9 commented entities) x placement (none, command line, command line in another case, file attribute, outer enclosing definition, inner enclosing definition, the element itself, unrelated sibling, another file's attribute) x argument (that lint, All, another lint, that + another, another + All), in-process; errors = 10 error templates (8 kinds with allow(All) everywhere, a repeated attribute with an allow written between its two uses) x -A lists; binary = command-line spellings, DuplicateFile, exit status, request identity; request-delta = one allow attribute on each of 7 places x 3 argument lists through the binary: the decoded generator request carries that attribute exactly once and otherwise equals the request of the run without it; random = proptest choice sequences -> programs with deprecated definitions and their uses, doc comments and up to 3 planted comment defects, plus 1..4 suppressions (command line, file attribute, any definition or member; one or two names each) in free layouts. Oracle: the statement's predicate gives the expected level (in the random family the element a lint concerns is found independently of the implementation's scope strings: the innermost element whose text, doc comment and attributes included, contains the lint's location as recorded by the printer); with/without pairs differ in nothing but that level and the added attribute. Non-trivial = a suppression is present (matrix) / at least one located lint judged (random)")
     }
     fn assumptions(&self) -> Vec<String> {
         vec![
@@ -708,6 +819,7 @@ impl Check for C13 {
             Family::enumerate("matrix", MATRIX_TOTAL, 1, matrix_case),
             Family::enumerate("errors", 30, 1, errors_case),
             Family::enumerate("binary", 36, 1, binary_case),
+            Family::enumerate("request-delta", 21, 1, request_delta_case),
         ]
     }
 }
